@@ -180,8 +180,9 @@ func (b *atxHeadingParser) Close(node ast.Node, reader text.Reader, pc Context) 
 		id, ok := node.AttributeString("id")
 		if !ok {
 			generateAutoHeadingID(node.(*ast.Heading), reader, pc)
-		} else {
-			pc.IDs().Put(id.([]byte))
+		} else if bid, ok := id.([]byte); ok {
+			// attribute values may not be bytes(i.e. {id=1})
+			pc.IDs().Put(bid)
 		}
 	}
 }
